@@ -1063,7 +1063,8 @@ impl_wrapper!(impl<T: TS> TS for std::cell::RefCell<T>);
 impl_wrapper!(impl<T: TS> TS for std::sync::Mutex<T>);
 impl_wrapper!(impl<T: TS> TS for std::sync::RwLock<T>);
 impl_wrapper!(impl<T: TS + ?Sized> TS for std::sync::Weak<T>);
-impl_wrapper!(impl<T: TS> TS for std::marker::PhantomData<T>);
+// serde serializes `PhantomData<T>` like `()`, whatever `T` is
+impl_shadow!(as (): impl<T: ?Sized> TS for std::marker::PhantomData<T>);
 
 impl_tuples!(T1, T2, T3, T4, T5, T6, T7, T8, T9, T10);
 
